@@ -431,3 +431,165 @@ def error_check_covers_all(ctx, fi, rule='SIB'):
                   f"`{norm(c)}` leaves out {off}: a tract whose {'/'.join(off)} is an error (e.g. a Twp/Rge without "
                   f"section under copy_all: 154n97wXX) raises no error flag and the description is not flawed",
                   key=f"{rule}|{fi.qualname}|error-check|{','.join(off)}", where=loc(fi, c))
+
+
+def none_vs_false(ctx, funcs, rule='SIB'):
+    """
+    A repo function that can return both None ("nothing") and False / 0 (a
+    value) is a three-valued answer: testing its result by bare truthiness
+    (`if value:`) throws the False / 0 answers in with "nothing".  Empty
+    baseline on the pinned tree.
+    """
+    from .. import flow as _flow
+    three = {}
+    for f in ctx.repo.funcs.values():
+        rc = set()
+        for r in walk_local(f.node):
+            if isinstance(r, ast.Return):
+                if r.value is None:
+                    rc.add('None')
+                elif isinstance(r.value, ast.Constant):
+                    rc.add(repr(r.value.value))
+        if 'None' in rc and ({'False', '0'} & rc):
+            three[f.node.name] = f
+    n = 0
+    for fi in funcs:
+        for t in walk_local(fi.node):
+            if not isinstance(t, (ast.If, ast.IfExp, ast.While)):
+                continue
+            for e, txt, pol in literals([(t.test, True)]):
+                if not isinstance(e, ast.Name):
+                    continue
+                try:
+                    pv = _flow.provenance(fi.node, e)
+                except Exception:
+                    continue
+                hit = {c.split('.')[-1] for c in _flow.prov_calls(pv)} & set(three)
+                if not hit:
+                    continue
+                n += 1
+                src = sorted(hit)[0]
+                ctx.violation(rule, f"{fi.qualname}: the answer of {src}() is told from None by identity",
+                              f"`{norm(t.test)[:50]}` tests `{txt}` by truthiness, but {src}() returns None for 'nothing' and "
+                              f"False / 0 as real values: an explicit False / 0 is dropped like a missing value",
+                              key=f"{rule}|{fi.qualname}|none-vs-false|{txt}", where=loc(fi, t))
+    if three and n == 0:
+        ctx.ok(rule, f"three-valued answers ({', '.join(sorted(three))}) are never tested by bare truthiness")
+    return n
+
+
+PARALLEL_FAMILIES = (('twp', 'rge', 'sec'), ('lots', 'qqs'), ('lot', 'qq'), ('ns', 'ew'))
+
+
+def parallel_shapes(ctx, funcs, rule='SIB'):
+    """
+    Copy/paste deviants among parallel code (Engler's "deviant behaviour"
+    applied to one function): the clauses of a boolean expression, the rows
+    of a table of tuples, or adjacent statements that are the same text up to
+    a component word (twp/rge/sec, lots/qqs, ns/ew).
+      MIX      one of the parallel items reads two components while its
+               siblings read one each (`f(self.qqs, len(self.lots))`);
+      DEVIANT  three or more items, one per component, all but one of the
+               same shape (`self.twp_num, self.rge_num, self.sec`).
+    Empty baseline on the pinned tree.
+    """
+    import re as _re
+    n = 0
+
+    def analyse(fi, items, kind):
+        nonlocal n
+        for fam in PARALLEL_FAMILIES:
+            info = []
+            for it in items:
+                txt = norm(it)
+                words = _re.split(r'(\W+|_)', txt)
+                tags = {w.lower() for w in words if w.lower() in fam}
+                shape = ''.join('#' if w.lower() in fam else w for w in words)
+                info.append((tags, shape, txt, it))
+            i = 0
+            while i < len(info):
+                j = i
+                while j + 1 < len(info) and info[j + 1][1] == info[i][1] and info[i][0]:
+                    j += 1
+                grp = info[i:j + 1]
+                if len(grp) >= 2:
+                    n += 1
+                    pure = [g for g in grp if len(g[0]) == 1]
+                    mixed = [g for g in grp if len(g[0]) > 1]
+                    if pure and mixed:
+                        for g in mixed:
+                            ctx.violation(rule, f"{fi.qualname}: parallel {kind} read one component each",
+                                          f"`{g[2][:80]}` reads {sorted(g[0])} although its sibling `{pure[0][2][:60]}` reads "
+                                          f"{sorted(pure[0][0])} only (copy/paste slip: a name of the other component was left in)",
+                                          key=f"{rule}|{fi.qualname}|mix|{','.join(sorted(g[0]))}", where=loc(fi, g[3]))
+                i = j + 1
+            pure = [x for x in info if len(x[0]) == 1]
+            if len(pure) >= 3 and len(pure) == len(info) and len({next(iter(p[0])) for p in pure}) == len(pure):
+                shapes = {}
+                for p in pure:
+                    shapes.setdefault(p[1], []).append(p)
+                n += 1
+                if len(shapes) == 2 and min(len(v) for v in shapes.values()) == 1 and max(len(v) for v in shapes.values()) >= 2:
+                    odd = min(shapes.values(), key=len)[0]
+                    norm_ = max(shapes.values(), key=len)[0]
+                    ctx.violation(rule, f"{fi.qualname}: parallel {kind} have the same shape for every component",
+                                  f"`{odd[2][:70]}` deviates from its siblings (`{norm_[2][:70]}` and alike): the "
+                                  f"{sorted(odd[0])[0]} item reads a different attribute than the pattern of the others",
+                                  key=f"{rule}|{fi.qualname}|deviant|{sorted(odd[0])[0]}", where=loc(fi, odd[3]))
+    for fi in funcs:
+        for x in ast.walk(fi.node):
+            if isinstance(x, ast.BoolOp) and len(x.values) >= 2:
+                analyse(fi, x.values, 'clauses')
+            if isinstance(x, (ast.Tuple, ast.List)) and len(x.elts) >= 2 and all(isinstance(e, (ast.Tuple, ast.List)) for e in x.elts):
+                analyse(fi, x.elts, 'rows')
+            for fld in ('body', 'orelse'):
+                bl = getattr(x, fld, None)
+                if isinstance(bl, list) and len(bl) >= 2 and all(isinstance(s, ast.stmt) for s in bl):
+                    analyse(fi, [s for s in bl if isinstance(s, (ast.Assign, ast.Expr, ast.AugAssign))], 'statements')
+    if n:
+        ctx.ok(rule, f"{n} groups of parallel clauses / rows / statements examined for copy-paste deviants")
+    return n
+
+
+def replace_by_text(ctx, fi, rule='SINK'):
+    """`txt.replace(<text of a regex match>, ...)` rewrites every occurrence
+    of those characters, not the matched span: returns the offending calls."""
+    from .. import flow as _flow
+    bad = []
+    for c in walk_local(fi.node):
+        if isinstance(c, ast.Call) and isinstance(c.func, ast.Attribute) and c.func.attr == 'replace' and c.args:
+            try:
+                pv = _flow.provenance(fi.node, c.args[0])
+            except Exception:
+                continue
+            calls = {x.split('.')[-1] for x in _flow.prov_calls(pv)}
+            subs = any(p[0] == 'sub' and ('mo' in p[1] or 'match' in p[1]) for p in pv)
+            if 'group' in calls or subs or {'finditer', 'search', 'match', 'fullmatch'} & calls:
+                bad.append(c)
+    return bad
+
+
+def config_words(ctx, plss=(), tract=(), rule='TBL'):
+    """The settings a property relies on are understood by Config: listed in
+    _CONFIG_ATTRIBUTES, in the value-category table of their kind, and in the
+    table of the object kind (PLSSDesc / Tract) that must receive them."""
+    g = lambda a: ctx.fold.get_attr('config.config', 'Config', a)
+    allattrs, bools, ints = g('_CONFIG_ATTRIBUTES'), g('_BOOL_TYPE_ATTRIBUTES'), g('_INT_TYPE_ATTRIBUTES')
+    tables = {'_PLSSDESC_ATTRIBUTES': (g('_PLSSDESC_ATTRIBUTES'), plss), '_TRACT_ATTRIBUTES': (g('_TRACT_ATTRIBUTES'), tract)}
+    for name in sorted(set(plss) | set(tract)):
+        ctx.check(name in allattrs, rule, f"Config._CONFIG_ATTRIBUTES knows {name!r}",
+                  detail_bad=f"{name!r} is not a Config setting any more: the word is rejected / ignored in a config string",
+                  key=f"{rule}|Config._CONFIG_ATTRIBUTES|{name}")
+        if name.startswith('qq_depth'):
+            ctx.check(name in ints, rule, f"Config._INT_TYPE_ATTRIBUTES knows {name!r}",
+                      detail_bad=f"{name!r} lost its value category: `{name}.<n>` is not converted", key=f"{rule}|Config._INT_TYPE_ATTRIBUTES|{name}")
+        elif name not in ('default_ns', 'default_ew', 'layout'):
+            ctx.check(name in bools, rule, f"Config._BOOL_TYPE_ATTRIBUTES knows {name!r}",
+                      detail_bad=f"{name!r} lost its value category: the bare word `{name}` in a config string is silently ignored",
+                      key=f"{rule}|Config._BOOL_TYPE_ATTRIBUTES|{name}")
+    for tname, (table, names) in tables.items():
+        for name in names:
+            ctx.check(name in table, rule, f"Config.{tname} knows {name!r}",
+                      detail_bad=f"{name!r} is missing from Config.{tname}: a `{name}` given by config string / Config object "
+                                 f"never reaches the {'description' if 'PLSS' in tname else 'tracts'}",
+                      key=f"{rule}|Config.{tname}|{name}")
